@@ -24,6 +24,7 @@ from typing import Any
 
 from . import common as C
 from . import lexdump as L
+from . import c02gen as G2
 from . import lexgen as G
 from .c17 import GROUP, SHARDS, Cases
 
@@ -147,6 +148,53 @@ def run_one(chk: C.Check, env: Any, src: str, data: dict[str, Any], stats: dict[
         signal.alarm(0)
 
 
+def run_graph(chk: C.Check, env: Any, name: str, stats: dict[str, int], replay: dict[str, Any]) -> None:
+    """Load and render one entry template of a (possibly cyclic) template graph,
+    sync and async. RecursionError is reported under one signature whatever
+    function happened to be innermost."""
+    from liquid2.exceptions import LiquidError
+
+    stats["graph_cases"] += 1
+
+    def report(e: BaseException, where: str) -> None:
+        if isinstance(e, RecursionError):
+            stats["python_exceptions"] += 1
+            chk.finding("PyExc RecursionError @ template graph",
+                        f"{where} of a cyclic template graph raised RecursionError instead of ContextDepthError",
+                        replay)
+        else:
+            check_exception(chk, e, where, replay, stats)
+
+    signal.alarm(20)
+    try:
+        try:
+            t = env.get_template(name)
+        except BaseException as e:  # noqa: BLE001
+            signal.alarm(0)
+            report(e, "get_template")
+            return
+        try:
+            t.render()
+            stats["rendered"] += 1
+        except BaseException as e:  # noqa: BLE001
+            signal.alarm(0)
+            if isinstance(e, LiquidError):
+                stats["graph_liquid_errors"] += 1
+            report(e, "render")
+            signal.alarm(20)
+        try:
+            loop = asyncio.new_event_loop()
+            try:
+                loop.run_until_complete(t.render_async())
+            finally:
+                loop.close()
+        except BaseException as e:  # noqa: BLE001
+            signal.alarm(0)
+            report(e, "render_async")
+    finally:
+        signal.alarm(0)
+
+
 WORD = re.compile(r"[A-Za-z_][A-Za-z0-9_]*")
 RESERVED = {"true", "false", "nil", "null", "and", "or", "not", "in", "contains", "if", "else", "with", "as",
             "for", "required", "endif", "endfor", "elsif", "unless", "endunless", "case", "when", "endcase",
@@ -207,6 +255,58 @@ def errctx_items(r: Any, n: int) -> list[dict[str, Any]]:
     return items
 
 
+def run_oracles(chk: C.Check, r: Any, stats: dict[str, int]) -> None:
+    """The direct oracle over the UNMODELLED parser and renderer (no Coq involved)."""
+    thorough = chk.tier == "thorough"
+    # ---- (d) direct oracle over the unmodelled parser and renderer
+    cts_path = C.REPO / "tests" / "liquid2-compliance-test-suite" / "cts.json"
+    cts = json.loads(cts_path.read_text())["tests"] if cts_path.exists() else []
+    vals = confused_values()
+    r.shuffle(cts)
+    nbase = len(cts) if thorough else 130
+    for t in cts[:nbase]:
+        src = t["template"]
+        env = env_pair(t.get("templates") or {})
+        base_data = t.get("data") or {}
+        muts = [src]
+        n = len(src)
+        cut = range(n) if thorough and n <= 120 else sorted(r.sample(range(n), min(n, 10 if thorough else 4)))
+        muts += [src[:k] for k in cut]
+        muts += [src[:i] + ins + src[j:] for (i, j, ins) in G.edits(r, src, 8 if thorough else 3)]
+        for m in muts:
+            data = confuse(r, m, base_data, vals)
+            run_one(chk, env, m, data, stats,
+                    {"source": m, "data": repr(data)[:600], "templates": t.get("templates") or {},
+                     "how": "Environment.from_string(source).render(**data) and render_async"})
+    # the original suite data too (unconfused), every template
+    for t in cts if thorough else cts[:300]:
+        run_one(chk, env_pair(t.get("templates") or {}), t["template"], t.get("data") or {}, stats,
+                {"source": t["template"], "data": repr(t.get("data"))[:600]})
+
+    # ---- (d2) every expression form in every argument position of every tag
+    for src, tpl, data in G2.expression_cases(r, chk.tier):
+        stats["expression_form_cases"] += 1
+        run_one(chk, env_pair(tpl), src, data, stats,
+                {"source": src, "templates": tpl, "data": "harness/c02gen.py EXPR_DATA", "stream": "expression forms"})
+    # ---- (d3) type-confused subscripts
+    env = env_pair({})
+    for src, data in G2.subscript_cases(r, chk.tier):
+        stats["subscript_cases"] += 1
+        run_one(chk, env, src, data, stats, {"source": src, "data": repr(data)[:300], "stream": "subscripts"})
+    # ---- (d4) cyclic template graphs: recursion ends in a LiquidError
+    for g in G2.graph_cases(r, chk.tier):
+        genv = env_pair(g)
+        for name in g:
+            run_graph(chk, genv, name, stats, {"templates": g, "entry": name, "stream": "template graphs",
+                                               "how": "Environment(loader=DictLoader(templates)).get_template(entry).render()"})
+
+    # ---- (e) the recorded witnesses, re-observed on every run
+    env = env_pair({})
+    for src, data in KNOWN_WITNESSES:
+        run_one(chk, env, src, data, stats, {"source": src, "data": data, "recorded_witness": True})
+
+
+
 def main(chk: C.Check, build: C.Build) -> None:
     warnings.simplefilter("ignore")
     proofs_ok = C.proof_stage(chk, build, NEEDED)
@@ -214,7 +314,8 @@ def main(chk: C.Check, build: C.Build) -> None:
     r = C.rng("c02", chk.tier)
     signal.signal(signal.SIGALRM, _alarm)
     stats = {"lexer_cases": 0, "lexer_errors": 0, "lexer_errors_at_eoi": 0, "parse_render_cases": 0, "parsed": 0,
-             "rendered": 0, "liquid_errors": 0, "python_exceptions": 0, "errctx_cases": 0}
+             "rendered": 0, "liquid_errors": 0, "python_exceptions": 0, "errctx_cases": 0,
+             "graph_cases": 0, "graph_liquid_errors": 0, "expression_form_cases": 0, "subscript_cases": 0}
 
     # ---- (a) error formatter vs model
     eitems = errctx_items(r, 400 if thorough else 60)
@@ -280,35 +381,7 @@ def main(chk: C.Check, build: C.Build) -> None:
         if n % max(1, len(cs.items) // 3) == 0 and len(samples) < 3:
             samples.append({"source": src, "outcome": L.outcome_json(out)})
 
-    # ---- (d) direct oracle over the unmodelled parser and renderer
-    cts_path = C.REPO / "tests" / "liquid2-compliance-test-suite" / "cts.json"
-    cts = json.loads(cts_path.read_text())["tests"] if cts_path.exists() else []
-    vals = confused_values()
-    r.shuffle(cts)
-    nbase = len(cts) if thorough else 130
-    for t in cts[:nbase]:
-        src = t["template"]
-        env = env_pair(t.get("templates") or {})
-        base_data = t.get("data") or {}
-        muts = [src]
-        n = len(src)
-        cut = range(n) if thorough and n <= 120 else sorted(r.sample(range(n), min(n, 10 if thorough else 4)))
-        muts += [src[:k] for k in cut]
-        muts += [src[:i] + ins + src[j:] for (i, j, ins) in G.edits(r, src, 8 if thorough else 3)]
-        for m in muts:
-            data = confuse(r, m, base_data, vals)
-            run_one(chk, env, m, data, stats,
-                    {"source": m, "data": repr(data)[:600], "templates": t.get("templates") or {},
-                     "how": "Environment.from_string(source).render(**data) and render_async"})
-    # the original suite data too (unconfused), every template
-    for t in cts if thorough else cts[:300]:
-        run_one(chk, env_pair(t.get("templates") or {}), t["template"], t.get("data") or {}, stats,
-                {"source": t["template"], "data": repr(t.get("data"))[:600]})
-
-    # ---- (e) the recorded witnesses, re-observed on every run
-    env = env_pair({})
-    for src, data in KNOWN_WITNESSES:
-        run_one(chk, env, src, data, stats, {"source": src, "data": data, "recorded_witness": True})
+    run_oracles(chk, r, stats)
 
     both = sorted(litems + citems, key=lambda x: x["base"])
     for gi in range(0, len(both), GROUP):
